@@ -165,7 +165,7 @@ Lemma step_inv s e tabs :
 Proof.
   intros H. assert (Mono : cell_inv (tabs ++ answered_tables [e]) (cell s)).
   { eapply cell_inv_mono; [|exact H]. apply incl_appl, incl_refl. }
-  destruct e as [id|id o]; cbn [step].
+  destruct e as [id|id o|]; cbn [step]; [| |exact Mono].
   - destruct (is_unknown (cell s)); [|exact Mono]. destruct (find_call id (waiting s)); exact Mono.
   - destruct (find_call id (waiting s)) as [f|]; [|exact Mono].
     destruct o as [code t| |]; cbn [cell].
@@ -209,7 +209,7 @@ Qed.
 Lemma single_flow_step_stable s e :
   is_unknown (cell s) = false -> waiting s = [] -> cell (step s e) = cell s /\ waiting (step s e) = [].
 Proof.
-  intros U W. destruct e as [id|id o]; cbn [step]; rewrite ?U, ?W; cbn; auto.
+  intros U W. destruct e as [id|id o|]; cbn [step]; rewrite ?U, ?W; cbn; auto.
 Qed.
 
 Lemma waiting_known_single s evs :
@@ -228,9 +228,9 @@ Definition flow_inv (s : cstate) : Prop :=
   (length (waiting s) <= 1)%nat /\ (is_unknown (cell s) = false -> waiting s = []).
 
 Lemma flow_inv_step s e :
-  flow_inv s -> match e with Call _ => waiting s = [] | Reply _ _ => True end -> flow_inv (step s e).
+  flow_inv s -> match e with Call _ => waiting s = [] | _ => True end -> flow_inv (step s e).
 Proof.
-  intros [L K] G. destruct e as [id|id o]; cbn [step].
+  intros [L K] G. destruct e as [id|id o|]; cbn [step]; [| |exact (conj L K)].
   - rewrite G in *. destruct (is_unknown (cell s)) eqn:U.
     + cbn [find_call app]. split; cbn; [lia|]. rewrite U. discriminate.
     + split; [rewrite G; cbn; lia|intros _; exact G].
@@ -256,10 +256,10 @@ Lemma single_flow_split a : forall s b,
 Proof.
   induction a as [|e r IH]; intros s b SF J; cbn [app fold_left]; [auto|].
   cbn [app single_flow_from] in SF.
-  assert (G : match e with Call _ => waiting s = [] | Reply _ _ => True end).
-  { destruct e; [|exact I]. destruct (waiting s); [reflexivity|discriminate SF]. }
+  assert (G : match e with Call _ => waiting s = [] | _ => True end).
+  { destruct e; [|exact I|exact I]. destruct (waiting s); [reflexivity|discriminate SF]. }
   assert (SF' : single_flow_from (step s e) (r ++ b) = true).
-  { destruct e; [destruct (waiting s); [exact SF|discriminate SF]|exact SF]. }
+  { destruct e; [destruct (waiting s); [exact SF|discriminate SF]|exact SF|exact SF]. }
   apply IH; [exact SF'|]. apply flow_inv_step; assumption.
 Qed.
 
@@ -280,7 +280,7 @@ Qed.
    of the version the client writes, also for later retries of the same payloads (findings F-C04-4, F-C04-5). *)
 Theorem resolved_cell_final_step s e : is_unknown (cell s) = false -> cell (step s e) = cell s.
 Proof.
-  intros U. destruct e as [id|id o]; cbn [step].
+  intros U. destruct e as [id|id o|]; cbn [step]; [| |reflexivity].
   - rewrite U. reflexivity.
   - destruct (find_call id (waiting s)) as [f|]; [|reflexivity].
     destruct o as [code t| |]; rewrite ?U; cbn [andb cell]; reflexivity.
